@@ -73,6 +73,14 @@ impl Mode {
             None => return Ok(None),
         };
 
+        // every packet has at least a size, type, reqi and one data byte
+        if n < self.valid_raw_buffer_min_len() {
+            return Err(io::Error::new(
+                io::ErrorKind::InvalidData,
+                "frame is shorter than the minimum packet size",
+            ));
+        }
+
         // does this exceed the max possible packet?
         if n > self.max_length() {
             return Err(io::Error::new(
